@@ -350,14 +350,14 @@ fn value_item(rng: &mut Rng, dist: &mut Dist) -> Vec<u8> {
 }
 
 fn garbage(rng: &mut Rng, dist: &mut Dist) -> Vec<u8> {
-  match rng.below(4) {
-    0 => {
+  match rng.below(8) {
+    0 | 1 => {
       dist.hit("mal_garbage_ops");
       (0..rng.below(5))
         .map(|_| *rng.pick(&[0x4fu8, 0x50, 0x51, 0x61, 0x63, 0x64, 0x67, 0x68, 0x75, 0xac, 0xba, 0xff]))
         .collect()
     }
-    1 => {
+    2 | 3 => {
       dist.hit("mal_garbage_pushes");
       let mut b = Vec::new();
       for _ in 0..rng.below(4) {
@@ -367,7 +367,7 @@ fn garbage(rng: &mut Rng, dist: &mut Dist) -> Vec<u8> {
       }
       b
     }
-    2 => {
+    4 => {
       dist.hit("mal_garbage_random");
 {
       let n = rng.below(12) as usize;
@@ -411,7 +411,7 @@ fn envelope_ish(rng: &mut Rng, dist: &mut Dist) -> Vec<u8> {
     b.push(*rng.pick(&[0x64u8, 0x00, 0x68, 0x51]));
   }
   // protocol id
-  match rng.below(12) {
+  match rng.below(20) {
     0 => b.extend(push_any(rng, b"orD")),
     1 => b.extend(push_any(rng, b"or")),
     2 => b.extend(push_any(rng, b"")),
@@ -445,7 +445,7 @@ fn envelope_ish(rng: &mut Rng, dist: &mut Dist) -> Vec<u8> {
     }
   }
   // terminator
-  match rng.below(10) {
+  match rng.below(16) {
     0 => dist.hit("mal_missing_endif"),
     1 => {
       dist.hit("mal_nonpush_opcode_inside");
@@ -550,7 +550,7 @@ fn malformed_script(rng: &mut Rng, dist: &mut Dist) -> Vec<u8> {
 
 fn malformed_witness(rng: &mut Rng, dist: &mut Dist) -> Vec<Vec<u8>> {
   let script = malformed_script(rng, dist);
-  match rng.below(12) {
+  match rng.below(24) {
     0 => {
       dist.hit("mal_witness_0");
       Vec::new()
